@@ -311,7 +311,7 @@ func Go(fn func()) {
 	}
 	child := int(Point(t, OpSpawn, 0, 0))
 	cur.wg.Add(1)
-	go threadMain(child, fn)
+	go threadMain(cur, child, fn)
 }
 
 //go:norace
@@ -322,12 +322,12 @@ func setGoid(tid int) {
 	aborted[tid] = 0
 }
 
-func threadMain(tid int, fn func()) {
+func threadMain(run *run, tid int, fn func()) {
 	setGoid(tid)
-	defer cur.wg.Done()
+	defer run.wg.Done()
 	defer func() {
 		if r := recover(); r != nil {
-			cur.notePanic(tid, fmt.Sprintf("%v\n%s", r, debug.Stack()))
+			run.notePanic(tid, fmt.Sprintf("%v\n%s", r, debug.Stack()))
 		}
 		if !isAborted(tid) {
 			batonSend(int32(tid), OpDone, 0, 0)
@@ -475,7 +475,7 @@ func Execute(opt Options, prefix []int, bodies []func()) *Exec {
 	r.running = len(bodies)
 	for i, b := range bodies {
 		r.wg.Add(1)
-		go threadMain(i, b)
+		go threadMain(r, i, b)
 	}
 	r.loop()
 	atomic.StoreInt32(&active, 0)
@@ -483,6 +483,11 @@ func Execute(opt Options, prefix []int, bodies []func()) *Exec {
 		r.wg.Wait()
 	} else {
 		Leaked = true
+		for i, t := range r.thr {
+			if t.state == 1 {
+				batonAbandon(i)
+			}
+		}
 	}
 	r.pmu.Lock()
 	r.x.Panics = append(r.x.Panics, r.panics...)
